@@ -13,7 +13,7 @@ LEVEL = "exploration"
 WORKERS = {"quick": 8, "thorough": 16}
 BUDGET = {"quick": 60, "thorough": 420}
 MIN_NONTRIVIAL = {"quick": 3000, "thorough": 60000}
-REQUIRED_HOOKS = ["compile", "evaluate:I", "evaluate:C", "render"]
+REQUIRED_HOOKS = ["compile", "evaluate:I", "evaluate:C", "render", "operator-sweep", "function-sweep"]
 RULE = (
     "Strings for compile(): corpus and generated sources mutated at token level (delete/duplicate/swap/insert tokens, unbalanced brackets and "
     "quotes), random Unicode/control characters, blank and multi-line text; every raise must be CELParseError with 1<=line<=#lines and "
@@ -277,6 +277,49 @@ def function_sweep(max_arity):
                     yield f"{recv}.{f}({', '.join(args[1:])})"
 
 
+# value kinds for the operator sweep: every scalar type, empty / homogeneous / heterogeneous containers (CEL lists and maps are
+# dynamically typed: [1, 'a', null] and {'a': 1, 2: 3} are values), range edges, type objects, unbound and bound names
+KINDS = [
+    "1", "(-1)", "0", "1u", "1.5", "'a'", "''", "b'a'", "true", "false", "null", "[]", "[1]", "[1, 'a', null]", "[[1], {'a': 1}]", "{}", "{'a': 1}",
+    "{'a': 1, 2: 3}", "{1u: 'x', 2: 'y', true: 'z'}", "{'k': [1, 'a'], 'm': {1: null}}", "timestamp('2009-02-13T23:31:30Z')", "duration('3601s')", "int", "type(null)",
+    "x", "nope", "hm", "hl", "9223372036854775807", "(-9223372036854775807 - 1)", "18446744073709551615u", "1e308", "dyn(1)", "dyn('a')",
+]
+BINOPS = ["+", "-", "*", "/", "%", "==", "!=", "<", "<=", ">", ">=", "in", "&&", "||"]
+SWEEP_ENV = {
+    "x": ("map", ((("string", "a"), ("int", 1)),)),
+    "hm": ("map", ((("string", "a"), ("int", 1)), (("int", 2), ("string", "b")), (("bool", True), ("null", None)), (("uint", 3), ("list", (("int", 1),))))),
+    "hl": ("list", (("int", 1), ("string", "a"), ("null", None), ("list", ()), ("map", ()), ("double", 1.5), ("bool", False), ("uint", 7), ("bytes", b"z"))),
+}
+
+
+def operator_sweep(full):
+    """every operator / member / index / macro form x every (pair of) value kind(s)"""
+    import itertools
+
+    for a, b in itertools.product(KINDS, repeat=2):
+        for op in BINOPS:
+            yield f"{a} {op} {b}"
+        yield f"{a}[{b}]"
+        yield f"{a} ? {b} : {a}"
+        yield f"{a}.exists_one(e, e == {b})"
+        yield f"{a}.filter(e, e != {b})"
+        yield f"{a}.map(e, [e, {b}])"
+        yield f"[{a}, {b}]"
+        yield f"{{{a}: {b}}}"
+        yield f"{a}.all(e, {b})"
+        if full:
+            yield f"{a}.exists(e, e in {b})"
+            yield f"{a}.map(e, e + {b})"
+            yield f"{{{a}: 1, {b}: 2}}"
+            yield f"[{a}].exists(e, e < {b})"
+    for a in KINDS:
+        for form in ("-{}", "!{}", "{}.a", "{}.missing", "{}.a.b", "has({}.a)", "has({}.missing)", "has({}.a.b)", "size({})", "{}.size()", "type({})", "string({})", "dyn({})",
+                     "{}.map(e, e)", "{}.all(e, e)", "{}.exists(e, e)", "{}.filter(e, true)", "{}.map(e, e.a)", "{}.map(e, has(e.a))", "{}.f()", "{}.f({})", "{} in {}", "{} == {}", "[{}][0]",
+                     "{}[0]", "{}['a']", "{}[null]", "{}.all(e, e.missing)", "true || {}.missing", "{}.missing || true", "false ? 1 : {}.missing", "{}.missing ? 1 : 2", "[{}.missing]",
+                     "{{'k': {}.missing}}", "{}.exists_one(e, e.missing == 1)"):
+            yield form.replace("{}", a) if "{{" not in form else form.format(a)
+
+
 def limit_probes():
     out = []
     out.append(" + ".join(["1"] * 32))
@@ -348,6 +391,23 @@ def run(ctx):
     else:
         acc.exhaustive.append("28 built-in function names x all argument-kind tuples over 15 kinds up to arity %d x function/method form" % (3 if ctx.thorough else 2))
     acc.hook("function-sweep", nsweep)
+
+    # ---- programs: every operator / member / index / macro form x every pair of value kinds
+    nops = 0
+    for i, src in enumerate(operator_sweep(ctx.thorough)):
+        if not ctx.mine(i):
+            continue
+        if ctx.time_left() < 0.35 * ctx.budget_s:
+            break
+        try:
+            node = larkconv.conv(parser.parse(src))
+        except Exception:
+            node = None
+        check_eval(acc, src, SWEEP_ENV, "operator-sweep", node=node, tag="operator-sweep")
+        nops += 1
+    else:
+        acc.exhaustive.append("%d operator/member/index/macro forms x all pairs of %d value kinds (heterogeneous lists and maps, range edges, type objects, unbound names included)" % (len(BINOPS) + (12 if ctx.thorough else 8), len(KINDS)))
+    acc.hook("operator-sweep", nops)
 
     # ---- programs: corpus (all of it, whatever it uses) under both runners
     for i, it in enumerate(items):
